@@ -57,6 +57,7 @@ fn main() {
     "c20" => c20::run(rest),
     "kin" => kin::run(rest),
     "pms" => pms::run(rest),
+    "effchain" => pms::run_eff(rest),
     other => {
       eprintln!("unknown property {}", other);
       std::process::exit(2);
